@@ -368,7 +368,7 @@ pub fn probes() -> Vec<(&'static str, &'static str)> {
 }
 
 /// `src/lib.rs` of the scratch crate.
-pub fn render_crate(items: &[Item]) -> String {
+pub fn render_crate(items: &[Item], with_probes: bool) -> String {
     let mut out = String::from(
         "//! @generated by /verif/engines/rt_bp (property C19, part B). One annotated item per legal\n//! combination of attribute arguments.\n#![allow(dead_code, unused_variables, clippy::all)]\n\n",
     );
@@ -382,7 +382,7 @@ pub fn render_crate(items: &[Item]) -> String {
     }
     // Probes: arguments the macros accept although the reference docs ("exhaustive list of all the
     // arguments") do not list them. Reported in the evidence as observations, never as violations.
-    for (name, attr) in probes() {
+    for (name, attr) in probes().into_iter().filter(|_| with_probes) {
         out.push_str(&format!("{attr}\npub fn {name}() {{}}\n\n"));
     }
     // A few items without any Pavex attribute: the compiler must see nothing on them.
@@ -418,13 +418,31 @@ pub struct Docs {
     pub cache_key: String,
     pub rustdoc_wall_s: f64,
     pub json_path: PathBuf,
+    pub probes_rejected_at_compile_time: Option<String>,
 }
 
 /// Document the scratch crate the way pavexc does (`cargo rustdoc … --output-format json
 /// -- --document-private-items --document-hidden-items` on the docs toolchain), with a cache keyed
 /// by everything that can influence the emitted attributes.
 pub fn ensure_docs(items: &[Item]) -> Docs {
-    let lib = render_crate(items);
+    // The probes use arguments outside the documented set: if the macros (rightly) reject them at
+    // compile time, document the crate without them.
+    match try_docs(items, true) {
+        Ok(d) => d,
+        Err(with_probes_error) => match try_docs(items, false) {
+            Ok(mut d) => {
+                d.probes_rejected_at_compile_time = Some(with_probes_error);
+                d
+            }
+            // The generated crate only uses documented argument combinations: if the real macros reject
+            // one of them, that is either a harness bug or a macro regression; never a silent pass.
+            Err(e) => verif_common::machinery_error(&e),
+        },
+    }
+}
+
+fn try_docs(items: &[Item], with_probes: bool) -> Result<Docs, String> {
+    let lib = render_crate(items, with_probes);
     let manifest = render_manifest();
     let toolchain_version = std::process::Command::new("rustup")
         .args(["run", DOCS_TOOLCHAIN, "rustc", "-V"])
@@ -483,9 +501,7 @@ pub fn ensure_docs(items: &[Item]) -> Docs {
         if !out.status.success() {
             let stderr = String::from_utf8_lossy(&out.stderr);
             let tail: String = stderr.lines().rev().take(40).collect::<Vec<_>>().into_iter().rev().collect::<Vec<_>>().join("\n");
-            // The generated crate only uses documented argument combinations: if the real macros reject
-            // one of them, that is either a harness bug or a macro regression; never a silent pass.
-            verif_common::machinery_error(&format!("`cargo rustdoc` failed on the generated attribute crate ({crate_dir}):\n{tail}"));
+            return Err(format!("`cargo rustdoc` failed on the generated attribute crate ({crate_dir}):\n{tail}"));
         }
         let produced = format!("{target_dir}/doc/attr_crate.json");
         std::fs::copy(&produced, &cached)
@@ -501,7 +517,7 @@ pub fn ensure_docs(items: &[Item]) -> Docs {
     if krate.format_version != rustdoc_types::FORMAT_VERSION {
         verif_common::machinery_error(&format!("rustdoc JSON format_version {} != {}", krate.format_version, rustdoc_types::FORMAT_VERSION));
     }
-    Docs { krate, cache_hit, cache_key: key, rustdoc_wall_s: wall, json_path: cached }
+    Ok(Docs { krate, cache_hit, cache_key: key, rustdoc_wall_s: wall, json_path: cached, probes_rejected_at_compile_time: None })
 }
 
 /// `None ≡ Some(false)` for the boolean flags: pavexc only ever tests them for `Some(true)`
@@ -754,7 +770,14 @@ pub fn check() -> BOutcome {
             out.violations.push((key_for(&it.expected, &o), what, case_json(it, &attrs, &o)));
         }
     }
-    for (name, attr) in probes() {
+    if let Some(e) = &docs.probes_rejected_at_compile_time {
+        let last = e.lines().find(|l| l.trim_start().starts_with("error")).unwrap_or("");
+        out.probes.push(json!({
+            "undocumented_attributes": probes().iter().map(|p| p.1).collect::<Vec<_>>(),
+            "rejected_by_the_macros_at_compile_time": last,
+        }));
+    }
+    for (name, attr) in probes().into_iter().filter(|_| docs.probes_rejected_at_compile_time.is_none()) {
         let found = by_name.get(name).and_then(|v| v.iter().copied().find(|i| matches!(i.inner, rustdoc_types::ItemEnum::Function(_))));
         if let Some(f) = found {
             annotated_ids.insert(f.id);
